@@ -22,6 +22,10 @@ APPEND_SITES = [
          spec='same(__arg, noise**2 * np.dot(v, v)) or same(__arg, np.dot(v, y))'),
     dict(func='lsmr', arg=0, name='solves-the-transposed-system', spec='same(__arg, Q.T)'),
     dict(func='lsmr', arg=1, name='right-hand-side-is-the-ones-vector', spec='same(__arg, np.ones(Q.shape[1]))'),
+    # "exactly those measurements whose queries can express the overall count": a measurement contributes exactly when the
+    # solver's answer reproduces the ones vector (residual test), not on the solver's own exit status
+    dict(func='if', contains='np.append(variances', name='contributes-iff-the-ones-vector-is-reproduced',
+         spec='np.allclose(Q.T.dot(v), np.ones(Q.shape[1]))'),
 ]
 COMMON = dict(pure=PURE, unpack_types={'noise': 'real'}, local_types={'variances': 'arr:real', 'estimates': 'arr:real'},
               division='abort', sqrt='nan')
@@ -39,10 +43,18 @@ def setup_contract(cls, ctor_names):
 EST_TOTAL = dict(COMMON, params=dict(measurements='seq:obj'), requires=[], sites=list(APPEND_SITES),
                  ensures={'formula': 'same(result, 1) if len(estimates) == 0 else same(result, %s)' % FORMULA})
 
+# "a total supplied by the caller is used exactly": estimate() hands its own `total` argument to whichever solver runs
+ESTIMATE = dict(params=dict(self='obj:FactoredInference', measurements='obj:', total='obj:', engine='obj:', callback='obj:', options='obj:dict'),
+                requires=[], pure={'.fix_measurements': 'obj'},
+                sites=[dict(func='.' + nm, arg=1, kw='total', name='solver-gets-the-callers-total', spec='same(__arg, total__old)')
+                       for nm in ('mirror_descent', 'dual_averaging', 'interior_gradient')],
+                ensures={})
+
 # (file, qualified name, contract)
 ITEMS = [
     ('src/mbi/inference.py', 'FactoredInference._setup', setup_contract('FactoredInference', ['GraphicalModel'])),
     ('src/mbi/local_inference.py', 'LocalInference._setup', setup_contract('LocalInference', ['RegionGraph', 'FactorGraph'])),
+    ('src/mbi/inference.py', 'FactoredInference.estimate', ESTIMATE),
     ('src/mbi/public_inference.py', 'estimate_total', EST_TOTAL),
     ('src/mbi/mixture_inference.py', 'estimate_total', EST_TOTAL),
 ]
